@@ -348,6 +348,7 @@ func Run(r *evid.Run) {
 		o := &sets[si]
 		bfs(r, o, alpha, b.bfs, b.hist, states, &mu)
 	}
+	wide(r)
 	r.States.Add(int64(len(states)))
 	r.Sample(Case{OptSet: "default", Ops: labels(alpha, []int{3, 1, 2, 4})})
 	r.Sample(Case{OptSet: "default", Ops: labels(alpha, []int{3, 1, 3, 7, 2})})
@@ -410,4 +411,101 @@ func bfs(r *evid.Run, o *OptSet, alpha []Op, depth, hist int, states map[string]
 	}
 	mu.Unlock()
 	r.Bound("phase 2: option set %q: BFS to depth %d over model states (%d states, <=%d histories each), every state x every op", o.Name, depth, len(seen), hist)
+}
+
+// wide: objects with N names around the linear-search -> map switch of the duplicate-name set
+// (64 names / 1 KiB of names): for every ordered pair i<j the j-th name written is name i again and
+// must be rejected, after which writing continues (the rejected call must leave no trace).
+func wide(r *evid.Run) {
+	type fam struct {
+		name string
+		ns   []int
+		mk   func(i int) string
+	}
+	fams := []fam{
+		{"short", []int{63, 64, 65, 66, 67, 68}, func(i int) string { return fmt.Sprintf("k%d", i) }},
+		{"1KiB", []int{62, 63, 64, 65, 66}, func(i int) string { return fmt.Sprintf("%s%02d", strings.Repeat("x", 14), i) }},
+		{"long", []int{10, 11, 12, 13, 14}, func(i int) string { return fmt.Sprintf("%s%02d", strings.Repeat("y", 100), i) }},
+	}
+	if r.Tier == "thorough" {
+		fams[0].ns = []int{60, 61, 62, 63, 64, 65, 66, 67, 68, 69, 70, 130}
+		fams[1].ns = []int{60, 61, 62, 63, 64, 65, 66, 67, 68}
+	}
+	type unit struct {
+		f      fam
+		n      int
+		rawOps bool
+	}
+	var units []unit
+	for _, f := range fams {
+		for _, n := range f.ns {
+			units = append(units, unit{f, n, false}, unit{f, n, true})
+		}
+	}
+	o := &OptSets()[0]
+	enum.Parallel(r, len(units), func(w *enum.Worker) func(int) {
+		s := &sys{}
+		var cur Case
+		w.Describe = func() any { return cur }
+		var transitions, traces int64
+		w.Done = func() { r.Transitions.Add(transitions); r.Traces.Add(traces); r.Evaluations.Add(traces); r.Nontrivial.Add(traces) }
+		return func(u int) {
+			un := units[u]
+			nameOp := func(i int) Op {
+				nm := un.f.mk(i)
+				if un.rawOps {
+					return raw(`"` + nm + `"`)
+				}
+				return tok(`"`+nm+`"`, jsontext.String(nm), '"', nm, "", false)
+			}
+			one := tok("1", jsontext.Int(1), '0', "", "1", false)
+			open := tok("{", jsontext.BeginObject, '{', "", "", false)
+			closeOp := tok("}", jsontext.EndObject, '}', "", "", false)
+			for j := 1; j < un.n; j++ {
+				for i := 0; i < j; i++ {
+					// { n0 1 n1 1 ... n(j-1) 1  n_i(dup, rejected)  n_j 1 n_i(dup again) }  then a sibling object reusing n_i
+					var alpha []Op
+					alpha = append(alpha, open)
+					for k := 0; k < j; k++ {
+						alpha = append(alpha, nameOp(k), one)
+					}
+					alpha = append(alpha, nameOp(i), nameOp(j), one, nameOp(i), nameOp(j), closeOp, open, nameOp(i), one, closeOp)
+					seq := make([]int, len(alpha))
+					for k := range seq {
+						seq[k] = k
+					}
+					cur = Case{OptSet: fmt.Sprintf("wide/%s/N=%d/raw=%v", un.f.name, un.n, un.rawOps), Ops: []string{fmt.Sprintf("i=%d j=%d", i, j)}}
+					var cnt [2]int64
+					step, msg := runSeq(s, o, alpha, seq, 0, &cnt)
+					transitions += int64(len(seq))
+					traces++
+					if msg != "" {
+						cs := Case{OptSet: "default", Ops: labels(alpha, seq[:step+1])}
+						r.Violation(fmt.Sprintf("c06|wide|%s|N=%d|raw=%v|i=%d|j=%d", un.f.name, un.n, un.rawOps, i, j), fmt.Sprintf("after call %d (%s): %s", step+1, cs.Ops[step], msg), cs, nil)
+					}
+					w.Beat()
+				}
+			}
+			// one raw value holding the whole object with a duplicate of every i at the last position
+			if un.rawOps {
+				for i := 0; i < un.n; i++ {
+					var sb strings.Builder
+					sb.WriteString("{")
+					for k := 0; k < un.n; k++ {
+						fmt.Fprintf(&sb, `"%s":1,`, un.f.mk(k))
+					}
+					fmt.Fprintf(&sb, `"%s":2}`, un.f.mk(i))
+					alpha := []Op{raw(sb.String()), raw(`{"` + un.f.mk(i) + `":1}`)}
+					var cnt [2]int64
+					step, msg := runSeq(s, o, alpha, []int{0, 1}, 0, &cnt)
+					transitions += 2
+					traces++
+					if msg != "" {
+						r.Violation(fmt.Sprintf("c06|wide-raw|%s|N=%d|i=%d", un.f.name, un.n, i), fmt.Sprintf("after call %d: %s", step+1, msg), Case{OptSet: "default", Ops: labels(alpha, []int{0, 1}[:step+1])}, nil)
+					}
+				}
+			}
+		}
+	})
+	r.Bound("wide objects: families short/1KiB/long with N in %v / %v / %v names, written by tokens and by raw name values: for every ordered pair i<j a duplicate of name i as the j-th name (must be rejected), continuation, and a sibling object reusing the name; plus whole raw objects with a trailing duplicate of every i", fams[0].ns, fams[1].ns, fams[2].ns)
 }
